@@ -466,6 +466,76 @@ def table_path_leg(res, tier, seed):
                                'model_says': b['model'], 'impl_says': b['got'], 'line': b['line'], 'case_key': 'C13|tablepath|' + b['line']})
 
 
+INIT_IMPL = r'''
+import sys, json, os
+import rbql
+from rbql import rbql_csv
+init, query, T, inp, outp = json.loads(sys.stdin.read())
+o = {}
+try:
+    rows = []
+    rbql.query_table(query, [r[:] for r in T], rows, [], user_init_code=init)
+    o['table'] = [[str(x) for x in r] for r in rows]
+except Exception as e:
+    o['table'] = 'err ' + type(e).__name__
+for name, kw in (('csv_explicit', {'user_init_code': init}), ('csv_home_default', {})):
+    try:
+        rbql_csv.query_csv(query, inp, ',', 'quoted', outp, ',', 'quoted', 'utf-8', [], False, **kw)
+        o[name] = [l.split(',') for l in open(outp).read().split(chr(10))[:-1]]
+    except Exception as e:
+        o[name] = 'err ' + type(e).__name__ + ' ' + str(e)[:60]
+print(json.dumps(o))
+'''
+
+
+def init_code_leg(res):
+    """user init code (functions and imports a query may use) through the library, the CSV front-end (explicit and the default ~/.rbql_init_source.py) and the
+    command line (--init-source-file and the default file): the same query gives the same table; without any init code the query fails everywhere"""
+    import tempfile, shutil
+    init = 'import math\ndef dbl(x):\n    return x + x\nPREFIX = "p-"\n'
+    T = [['ab', '3'], ['cd', '4']]
+    queries = ['select dbl(a1), math.floor(int(a2) / 2), PREFIX + a1', 'select a1 where dbl(a2) == "44"', 'select count(*), max(dbl(int(a2)))']
+    nbad = 0
+    for q in queries:
+        d = tempfile.mkdtemp(prefix='rbqlverif_c13init_')
+        try:
+            inp, outp = os.path.join(d, 'in.csv'), os.path.join(d, 'out.csv')
+            open(inp, 'w').write(''.join(','.join(r) + '\n' for r in T))
+            home_with, home_without = os.path.join(d, 'h1'), os.path.join(d, 'h2')
+            os.mkdir(home_with); os.mkdir(home_without)
+            open(os.path.join(home_with, '.rbql_init_source.py'), 'w').write(init)
+            initf = os.path.join(d, 'my_init.py'); open(initf, 'w').write(init)
+            env = common.impl_env(); env['HOME'] = home_with
+            r = subprocess.run([common.PY, '-W', 'ignore', '-c', INIT_IMPL], input=json.dumps([init, q, T, inp, outp]).encode(), env=env, stdout=subprocess.PIPE, stderr=subprocess.PIPE, timeout=120)
+            try:
+                o = json.loads(r.stdout.decode().strip().split('\n')[-1])
+            except (ValueError, IndexError):
+                raise RuntimeError('C13 init-code driver failed: ' + r.stderr.decode()[-300:])
+            want = o['table']
+            obs = {'csv_explicit': o['csv_explicit'], 'csv_home_default': o['csv_home_default']}
+            env2 = common.impl_env(); env2['HOME'] = home_without
+            c1 = subprocess.run([common.PY, '-W', 'ignore', '-m', 'rbql', '--input', inp, '--delim', ',', '--policy', 'quoted', '--query', q, '--init-source-file', initf], env=env2, stdout=subprocess.PIPE, stderr=subprocess.PIPE, timeout=120)
+            obs['cli_init_source_file'] = [l.split(',') for l in c1.stdout.decode().split('\n')[:-1]] if c1.returncode == 0 else 'rc=%d %s' % (c1.returncode, c1.stderr.decode()[:80])
+            c2 = subprocess.run([common.PY, '-W', 'ignore', '-m', 'rbql', '--input', inp, '--delim', ',', '--policy', 'quoted', '--query', q], env=env, stdout=subprocess.PIPE, stderr=subprocess.PIPE, timeout=120)
+            obs['cli_home_default'] = [l.split(',') for l in c2.stdout.decode().split('\n')[:-1]] if c2.returncode == 0 else 'rc=%d %s' % (c2.returncode, c2.stderr.decode()[:80])
+            c3 = subprocess.run([common.PY, '-W', 'ignore', '-m', 'rbql', '--input', inp, '--delim', ',', '--policy', 'quoted', '--query', q], env=env2, stdout=subprocess.PIPE, stderr=subprocess.PIPE, timeout=120)
+            no_init_fails = c3.returncode != 0 and c3.stderr.decode().startswith('Error [') and c3.stdout == b''
+        finally:
+            shutil.rmtree(d, ignore_errors=True)
+        for name, got in obs.items():
+            res.evaluations += 1
+            res.nontrivial.add(('init', q, name))
+            if not isinstance(want, list) or got != want:
+                nbad += 1
+                res.violations.append({'property': 'C13', 'impl': 'py', 'why': 'user init code: %s differs from query_table(user_init_code=…)' % name, 'query': q, 'init_code': init, 'table': T,
+                                       'query_table': want, 'observed': got, 'case_key': 'C13|init|%s|%s' % (name, q)})
+        res.evaluations += 1
+        if not no_init_fails:
+            nbad += 1
+            res.violations.append({'property': 'C13', 'impl': 'py', 'why': 'without any init code the query must fail with an Error line on stderr and nothing on stdout', 'query': q, 'case_key': 'C13|init|none|' + q})
+    res.count('init_code_failures', nbad)
+
+
 def cli_encoding_leg(res):
     """non-ASCII data under --encoding utf-8 / latin-1 through the command line, file and stdin in, file and stdout out: the BYTES written are the
     result table of query_table encoded with the requested encoding, whatever the locale of the process says about stdout (direct oracle)"""
@@ -531,6 +601,7 @@ def run(res, tier, seed):
     cli_dialect_leg(res)
     cli_door_leg(res)
     table_path_leg(res, tier, seed)
+    init_code_leg(res)
     cli_encoding_leg(res)
     res.assumptions = ['pandas itertuples / DataFrame(rows, columns) and sqlite3 cursors are faithful adapters (assumed; tied here)', 'argparse mapping is tied, not proved']
     rnd = random.Random(seed * 7001 + 13)
